@@ -91,8 +91,17 @@ def run_check(P, tier, replay=None):
     corr_ran = False
     header = P.COQ_HEADER() if callable(P.COQ_HEADER) else P.COQ_HEADER
     if build_ok:
-        terms = [None if core.HARNESS_EXC in r else P.coq_case(c, r)
-                 for c, r in zip(cases, results)]
+        terms = []
+        for c, r in zip(cases, results):
+            if core.HARNESS_EXC in r:
+                terms.append(None)
+                continue
+            try:
+                terms.append(P.coq_case(c, r))
+            except Exception as e:      # noqa: a result the model's vocabulary cannot express
+                r[core.HARNESS_EXC] = (f"result outside the model's vocabulary "
+                                       f"({type(e).__name__}: {e}): {str(r)[:300]}")
+                terms.append(None)
         idx = [i for i, t in enumerate(terms) if t is not None]
         if idx:
             f, errors = core.run_case_files(pid, header, [terms[i] for i in idx],
@@ -107,10 +116,14 @@ def run_check(P, tier, replay=None):
     for i, (c, r) in enumerate(zip(cases, results)):
         if core.HARNESS_EXC in r:
             msg = ("the library raised outside every operation the check observes (while the "
-                   "case was being set up), which the model does not predict: "
-                   + r[core.HARNESS_EXC].strip().splitlines()[-1][:200])
+                   "case was being set up) or returned something the model cannot express: "
+                   + r[core.HARNESS_EXC].strip().splitlines()[-1][:300])
         else:
-            msg = P.oracle(c, r)
+            try:
+                msg = P.oracle(c, r)
+            except Exception as e:      # noqa
+                msg = (f"the result has a shape the reference evaluation does not expect "
+                       f"({type(e).__name__}: {e}): {str(r)[:300]}")
         if msg:
             oracle_hits.append((i, msg))
     extra = getattr(P, 'extra_checks', None)
@@ -207,9 +220,15 @@ def run_check(P, tier, replay=None):
         if core.HARNESS_EXC in r:
             hist['raised-outside-observation'] += 1
             continue
-        for lab in P.labels(c, r):
-            hist[lab] += 1
-        k = P.nontrivial_key(c, r)
+        # evidence only: a result shape the labelling does not expect (it occurs on
+        # changed code) must not keep the verdict from being reported
+        try:
+            for lab in P.labels(c, r):
+                hist[lab] += 1
+            k = P.nontrivial_key(c, r)
+        except Exception:       # noqa
+            hist['unlabelled'] += 1
+            k = None
         if k is not None:
             nontrivial.add(k)
     step = max(1, len(cases) // 4)
